@@ -2,7 +2,7 @@
 
 IMPORTS = "From Ergo Require Import Common.Base App.Seq App.Cases.\n"
 SPEC = ["spec_clean", "spec_stop_truthful", "spec_mode_rule", "spec_term_once", "spec_start"]
-TAGS = ["cause-race", "start-race", "restart-race"]
+TAGS = ["cause-race", "restart-race", "rollback-busy"]
 
 
 def known_tags(c, tags=TAGS):
